@@ -235,3 +235,45 @@ def _(E):
     c = E.callf("copy", g)
     E.ensure("same_structure_and_values", same_value(E, c, g))
     E.ensure("shares_no_mutable_object_with_the_source", disjoint(E, c, g))
+
+
+# --------------------------------------------------------------------------------------------------
+# joints repaired by the path never alias the neighbour's Point object
+# --------------------------------------------------------------------------------------------------
+@family("C18/Path.edit/joint_points_are_copies", ["append_startless", "append_mismatched", "insert", "setitem",
+                                                  "delitem", "extend"],
+        funcs=["Path.append", "Path.insert", "Path.__setitem__", "Path.__delitem__", "Path.extend",
+               "Path._validate_connection", "Path._validate_subpath", "Path._validate_move", "Path._validate_close"],
+        props=["C18", "C02"], kind="S", note="representative three-segment path; the edited joint is generic")
+def _(E, how):
+    from .parser import mk_prefix
+
+    p, _state, _kinds = mk_prefix(E, "MLQ")      # a connected path (every start equals the predecessor's end)
+    segs = E.get(p, "_segments")
+    if how == "append_startless":
+        E.call(p, "append", mk_seg(E, "Line", "n", start=False))
+    elif how == "append_mismatched":
+        E.call(p, "append", mk_seg(E, "CubicBezier", "n"))
+    elif how == "insert":
+        E.call(p, "insert", 1, mk_seg(E, "Line", "n"))
+    elif how == "setitem":
+        E.call(p, "__setitem__", 1, mk_seg(E, "Line", "n", start=False))
+    elif how == "delitem":
+        E.call(p, "__delitem__", 1)
+    else:
+        E.call(p, "extend", E.list([mk_seg(E, "Line", "n", start=False)]))
+    items = E.items(segs)
+    conds = []
+    tol = E.const(1e-12)                          # Point.__eq__ accepts 1e-12: such a joint is left as it is
+    for a, b in zip(items, items[1:]):
+        conds.append(And(Abs(a.end.x - b.start.x) <= tol, Abs(a.end.y - b.start.y) <= tol))
+        conds.append(not E.same(a.end, b.start))
+    E.ensure("joints_equal_in_value_but_distinct_point_objects", And(*conds))
+    owners = {}
+    shared = False
+    for s in items:
+        for ident in E.reach(s):
+            if ident in owners and owners[ident] is not s:
+                shared = True
+            owners[ident] = s
+    E.ensure("no_point_object_belongs_to_two_segments", not shared)
